@@ -187,6 +187,7 @@ def judge_strand(case, rec):
     rec.event("shape=" + "x".join(case["shape"]))
     _nontrivial(case, rec)
     part = cube.partitions[0]
+    lib.warm(part, case.get("warmup"))
     orc = Oracle(sv, q)
     rspecs = lib.display_specs(part.row_order(), part.row_labels, orc.rows,
                                case["insertions"]["rows"])
